@@ -380,3 +380,101 @@ Proof.
   destruct (kind_is w p (nkind_eqb NTag)); cbn [run_a snd]; [|split; discriminate].
   destruct (resolve_index F w p i); cbn [run_a snd]; [apply detach_run|apply rejected_inj].
 Qed.
+
+(* ---- the value-level setters: comment content, PI target, PI content, attribute names ---- *)
+From Delb.Base Require Import PySplit.
+From Delb.Gen Require Import GenNsValidators GenNames GenAttr GenAttrKey.
+From Delb.Conc Require Import Setters.
+
+Theorem setter_reject_unchanged w st w' e : csetter w st = (w', Rejected e) -> w' = w.
+Proof.
+  unfold csetter. destruct (cw_rw (f_assign st) w) as [[w1 []]|]; try discriminate; [intros H; injection H as <- _; reflexivity|].
+  destruct (first_sib st w) as [e0|]; [|discriminate]. destruct (f_assign st [] e0) as [[e1 []]|]; try discriminate.
+  intros H. injection H as <- _. reflexivity.
+Qed.
+Theorem setter_reject_class w st e : snd (csetter w st) = Rejected e -> e = EValueError.
+Proof.
+  unfold csetter. destruct (cw_rw (f_assign st) w) as [[w1 []]|]; cbn [snd]; try discriminate; [intros H; injection H as <-; reflexivity|].
+  destruct (first_sib st w) as [e0|]; [|discriminate]. destruct (f_assign st [] e0) as [[e1 []]|]; cbn [snd]; try discriminate.
+  intros H. injection H as <-. reflexivity.
+Qed.
+(* at the node the call is addressed to: refused exactly when the generated validator refuses the value (for an
+   attribute: the key that is going to be stored), and then the node is returned as it was *)
+Theorem setter_refused_at st inh i k own data kids :
+  f_assign st inh (CEl i k own data kids) = Some (CEl i k own data kids, Refused) <->
+  i = setter_target st /\ refused_at st (in_scope inh own) k = Some true.
+Proof.
+  cbn [f_assign]. destruct (N.eqb_spec i (setter_target st)) as [E|E].
+  - destruct (refused_at st (in_scope inh own) k) as [[]|]; destruct (assign st (in_scope inh own) k); split; intros H;
+      first [discriminate H | (destruct H as [_ H]; discriminate H) | (split; [exact E|reflexivity]) | reflexivity].
+  - split; [discriminate|intros [H _]; contradiction].
+Qed.
+Theorem setter_assigned_only_if_accepted st inh e e' : f_assign st inh e = Some (e', Done) ->
+  refused_at st (in_scope inh (cown_dns e)) (ckind_of e) = Some false.
+Proof.
+  destruct e as [i k own data kids]. cbn [f_assign cown_dns ckind_of]. destruct (N.eqb i (setter_target st)); [|discriminate].
+  destruct (refused_at st (in_scope inh own) k) as [[]|]; destruct (assign st (in_scope inh own) k); try discriminate; reflexivity.
+Qed.
+
+Lemma str_eqb_eq a b : str_eqb a b = true <-> a = b.
+Proof.
+  revert b. induction a as [|x a IH]; intros [|y b]; cbn [str_eqb]; try (split; [discriminate|discriminate]); [split; reflexivity|].
+  rewrite andb_true_iff, N.eqb_eq, IH. split; [intros [-> ->]; reflexivity|intros H; injection H as -> ->; auto].
+Qed.
+Lemma attribute_name_refused_iff ns name :
+  attribute_name_refused ns name = true <-> name = [120; 109; 108; 110; 115]%N \/ ns = xmlns_ns.
+Proof. unfold attribute_name_refused. rewrite orb_true_iff, !str_eqb_eq. reflexivity. Qed.
+Lemma pi_content_refused_iff s :
+  pi_content_refused s = true <-> exists c r, s = c :: r /\ (c = 32 \/ c = 9 \/ c = 10 \/ c = 13)%N.
+Proof.
+  unfold pi_content_refused, py_startswith. destruct s as [|c r]; cbn [py_prefix].
+  - split; [discriminate|intros (c & r & H & _); discriminate].
+  - rewrite !andb_true_r, !orb_true_iff, !N.eqb_eq. split.
+    + intros H. exists c, r. split; [reflexivity|]. destruct H as [[[H|H]|H]|H]; subst; auto.
+    + intros (c' & r' & E & H). injection E as <- _. destruct H as [H|[H|[H|H]]]; subst; auto.
+Qed.
+
+(* for a name without Clark notation in it the stored key is validated like the qualified name itself (the default
+   namespace is never the xmlns namespace) *)
+Fixpoint no_char (c : char) (s : str) : bool := match s with [] => true | x :: r => negb (N.eqb x c) && no_char c r end.
+Lemma split1_built ns n : no_char RB ns = true -> py_split1 (ns ++ RB :: n) RB = Some (ns, n).
+Proof.
+  induction ns as [|x r IH]; cbn [app py_split1 no_char]; intros H; [rewrite N.eqb_refl; reflexivity|].
+  apply andb_true_iff in H as [H1 H2]. apply negb_true_iff in H1. rewrite H1, (IH H2). reflexivity.
+Qed.
+Lemma decon_built ns n : no_char RB ns = true -> deconstruct_clark_notation ([LB] ++ ns ++ [RB] ++ n) None = Ok (Some ns, n).
+Proof.
+  intros H. unfold deconstruct_clark_notation. change ([LB] ++ ns ++ [RB] ++ n) with ((LB :: ns) ++ RB :: n). change 125%N with RB.
+  rewrite split1_built by (cbn [no_char]; rewrite H; reflexivity). reflexivity.
+Qed.
+Lemma decon_plain n : match n with x :: _ => N.eqb x LB = false | [] => True end -> deconstruct_clark_notation n None = Ok (None, n).
+Proof.
+  intros H. unfold deconstruct_clark_notation, py_startswith. destruct n as [|x r]; [reflexivity|]. cbn [py_prefix].
+  unfold LB in H. rewrite N.eqb_sym in H. rewrite H. reflexivity.
+Qed.
+Theorem attr_refused_plain dns attrs ns name :
+  no_char RB ns = true -> no_char RB dns = true -> match name with x :: _ => N.eqb x LB = false | [] => True end ->
+  str_eqb dns xmlns_ns = false -> (null ns = false -> str_eqb ns dns = true -> str_eqb ns xmlns_ns = false) ->
+  attr_refused dns attrs ns name = attribute_name_refused ns name.
+Proof.
+  intros Hns Hdns Hname Hd Hnd. unfold xmlns_ns in Hd, Hnd. unfold attr_refused, stored_pair, etree_key_gen.
+  set (dopt := if null dns then None else Some dns).
+  destruct (py_bool_str ns && (negb (optstr_eqb dopt (Some ns)) || py_in_keys ([123%N] ++ ns ++ [125%N] ++ name) (map store_key attrs)))%bool eqn:E1.
+  - change ([123%N] ++ ns ++ [125%N] ++ name) with ([LB] ++ ns ++ [RB] ++ name). rewrite (decon_built ns name Hns). reflexivity.
+  - destruct (negb (py_bool_str ns) && py_bool_optstr dopt && negb (py_in_keys name (map store_key attrs))
+              && py_in_keys ([123%N] ++ py_str_optstr dopt ++ [125%N] ++ name) (map store_key attrs))%bool eqn:E2.
+    + (* no namespace given, the default namespace's entry is addressed *)
+      apply andb_true_iff in E2 as [E2 _]. apply andb_true_iff in E2 as [E2 _]. apply andb_true_iff in E2 as [En Ed].
+      unfold py_bool_str in En. apply negb_true_iff, negb_false_iff in En. destruct ns; [|discriminate].
+      unfold dopt in *. destruct (null dns) eqn:Edn; [discriminate|]. cbn [py_str_optstr].
+      change ([123%N] ++ dns ++ [125%N] ++ name) with ([LB] ++ dns ++ [RB] ++ name). rewrite (decon_built dns name Hdns).
+      unfold attribute_name_refused. rewrite Hd. cbn [str_eqb]. reflexivity.
+    + rewrite (decon_plain name Hname). unfold attribute_name_refused. cbn [str_eqb]. rewrite orb_false_r.
+      (* the namespace given is empty or the default namespace *)
+      destruct (null ns) eqn:En.
+      * destruct ns; [|discriminate]. cbn [str_eqb]. rewrite orb_false_r. reflexivity.
+      * assert (Eq : str_eqb ns dns = true).
+        { unfold py_bool_str in E1. rewrite En in E1. cbn [negb andb] in E1. apply orb_false_iff in E1 as [E1 _]. apply negb_false_iff in E1.
+          unfold dopt in E1. destruct (null dns); [discriminate|]. cbn [optstr_eqb] in E1. rewrite str_eqb_eq in E1. rewrite str_eqb_eq. congruence. }
+        rewrite (Hnd eq_refl Eq), orb_false_r. reflexivity.
+Qed.
